@@ -350,7 +350,7 @@ def wd(o):
 def supervised(v, fn, items, expand, describe):
     """run fn over chunk-items under the watchdog; a chunk without result is expanded into single inputs to find the input.
     After two confirmed hangs / deaths the rest is skipped (the verdict is already decided).  -> (results, skipped)"""
-    out = watchdog.run(fn, items, procs=16, limit=LIMIT, init=_init, chunk=1, abort_after=2)
+    out = watchdog.run(fn, items, procs=16, limit=LIMIT, init=_init, abort_after=2)
     good, skipped, expanded = [], 0, False
     for it, o in zip(items, out):
         k = wd(o)
@@ -441,7 +441,7 @@ def main(tier, replay=None):
     states += r.distinct
     trans += r.generated
     t0 = _lap('enum_tlc', t0)
-    items = [(r.dump, a, b, nrep, tier) for a, b in mbt.split_dump(r.dump, 512 if r.distinct > 100000 else 128)]
+    items = [(r.dump, a, b, nrep, tier) for a, b in mbt.split_dump(r.dump, max(128, r.distinct // 400))]
     def expand_chunk(it):
         return [('one', st, nrep, tier) for st in mbt.chunk_states(*it[:3]) if st['pc'] == 'end']
 
@@ -470,7 +470,8 @@ def main(tier, replay=None):
     # (c) corpus
     rnd = random.Random(SEED)
     items = corpus_items(tier, rnd)
-    chunks = [items[i::128] for i in range(128)]
+    nch = max(128, len(items) // 60)
+    chunks = [items[i::nch] for i in range(nch)]
     if any(x['key']['clause'] in ('hang', 'interpreter crash') for x in v.violations):
         chunks = []                                   # the verdict is decided; do not wait for more watchdog limits
         cov['corpus_skipped_after_hang'] = True
@@ -507,7 +508,8 @@ def main(tier, replay=None):
     v.cov = dict(cov, phase_seconds=dict(_T), states=states, transitions=trans, exhaustive=True,
                  traces_validated_against_impl=nobs, distinct_records_judged_by_tlc=len(keys),
                  enumerated_inputs=tot['ends'], concretisations_compared_with_model=tot['lcompared'], drift=tot['ndrift'],
-                 model_outcomes=outcomes, model_error_kinds=errkinds, corpus_inputs=len(items), corpus_runs=cruns,
+                 model_outcomes=outcomes, model_error_kinds=errkinds,
+                 model_states_violating_H_YamlErrorOnly=outcomes.get('crash', 0), corpus_inputs=len(items), corpus_runs=cruns,
                  distinct_nontrivial=len(keys),
                  rule='every string of every configuration (prefix + all strings <= MaxLen over its alphabet) scanned by Scanner.tla; '
                       'each concretised %d times and run through scan/parse/compose_all x str/bytes/stream x Loader/CLoader; '
